@@ -2,6 +2,7 @@ package main
 
 import (
 	"bytes"
+	"encoding/hex"
 	"fmt"
 	"io"
 	"strconv"
@@ -26,11 +27,10 @@ import (
 //      record is made up from neighbouring lines, one record per call);
 //   B  every strictly valid line is returned (lossless; later records intact after a malformed line);
 //   C  no call panics; the last call reports the end of the stream as an error.
-// For the two kinds tagged finding:F1 / finding:F2 (DESIGN/§ note of lib/props/C19.json: a non-hex
-// character at an even hex offset >= 2 truncates silently; a missing terminator between two lines
-// merges them) A tolerates exactly the documented outcome `lenient(line)` and nothing else.
-// Sources with 0-pieces or e=1 (kind suffix "+src") are outside the property (finding F3); for them only
-// C and the model/implementation comparison apply.
+// This holds for every source, including readers that return (0,nil) or the last byte together with io.EOF
+// (kind suffix "+src"). Garbage streams (kind garbage) are judged by the same oracle: a record may only
+// come from exactly one whole line of the grammar (the reader also accepts lower-case hex and a leading '+',
+// see strictLine).
 
 type fragReader struct {
 	data    []byte
@@ -41,7 +41,7 @@ type fragReader struct {
 
 func (f *fragReader) Read(p []byte) (int, error) {
 	if len(f.data) == 0 {
-		f.sawEOF = true
+		f.sawEOF = true // (0, io.EOF): the end of the stream proper
 		return 0, io.EOF
 	}
 	n := len(p)
@@ -66,7 +66,6 @@ func (f *fragReader) Read(p []byte) (int, error) {
 		}
 	}
 	if f.eofData && len(f.data) == 0 && n > 0 {
-		f.sawEOF = true
 		return n, io.EOF
 	}
 	return n, nil
@@ -241,7 +240,7 @@ func c19frags(r *Rng, total int, nonstd *bool) ([]int, bool) {
 	}
 }
 
-var c19nonhex = []byte{'g', 'G', 'x', 'X', 'O', 'l', '-', '+', '_', '.', ':', '/', '@', '`', '\t', '\r', 0x0B, 0x0C, 0x00, 0x7F, 0x80, 0xC2, 0xA0, 0xE2, 0xFF, '%', '"'}
+var c19nonhex = []byte{' ', 'g', 'G', 'x', 'X', 'O', 'l', '-', '+', '_', '.', ':', '/', '@', '`', '\t', '\r', 0x0B, 0x0C, 0x00, 0x7F, 0x80, 0xC2, 0xA0, 0xE2, 0xFF, '%', '"'}
 
 func init() {
 	register(&Prop{
@@ -257,7 +256,7 @@ func init() {
 }
 
 // c19Facts dumps what the compiled fmt package does on the finite tables the proofs lean on:
-// %X of every byte and the set of single bytes Sscanf's %X accepts as hex digits.
+// %X of every byte and the set of single bytes encoding/hex accepts as hex digits.
 func c19Facts(w io.Writer) {
 	io.WriteString(w, "/-- `fmt.Sprintf(\"%X\", []byte{b})` for b = 0..255 (C19) -/\ndef midicatHexUp : List (List Nat) := [")
 	for b := 0; b < 256; b++ {
@@ -275,12 +274,12 @@ func c19Facts(w io.Writer) {
 		fmt.Fprint(w, "]")
 	}
 	fmt.Fprintln(w, "]")
-	io.WriteString(w, "/-- for c = 0..255: the value `Sscanf(string([]byte{c,c}), \"%X\", &out)` yields for one nibble, 16 = not a hex digit (C19) -/\ndef midicatHexVal : List Nat := [")
+	io.WriteString(w, "/-- for c = 0..255: the nibble value `hex.Decode(out, []byte{c,c})` yields, 16 = not a hex digit (C19) -/\ndef midicatHexVal : List Nat := [")
 	for c := 0; c < 256; c++ {
-		var out []byte
-		_, err := fmt.Sscanf(string([]byte{byte(c), byte(c)}), "%X", &out)
+		out := make([]byte, 1)
+		n, err := hex.Decode(out, []byte{byte(c), byte(c)})
 		v := 16
-		if err == nil && len(out) == 1 {
+		if err == nil && n == 1 {
 			v = int(out[0] & 15)
 		}
 		if c > 0 {
@@ -406,7 +405,9 @@ func genC19(r *Rng, tier string, emit func(Case)) {
 			}
 			l = append([]byte{}, l...)
 			l[sp+1+off] = c19nonhex[r.Intn(len(c19nonhex))]
-			if off >= 2 && off%2 == 0 {
+			if l[sp+1+off] == ' ' {
+				kind = "nonhex-blank"
+			} else if off >= 2 && off%2 == 0 {
 				kind = "nonhex-even"
 			} else if off == 0 {
 				kind = "nonhex-first"
@@ -432,8 +433,8 @@ func genC19(r *Rng, tier string, emit func(Case)) {
 		data := bytes.Join(lines, nil)
 		nonstd := false
 		fr, e := c19frags(r, len(data), &nonstd)
-		if nonstd { // keep the mutation streams inside the property's sources
-			fr, e = nil, false
+		if nonstd {
+			kind += "+src"
 		}
 		tags := []string{"kind:" + kind, sizeTag(recs), fragTag(fr, len(data)), fmt.Sprintf("mutated-line:%s", map[bool]string{true: "last", false: "inner"}[k == len(recs)-1])}
 		emit(Case{Op: mk(kind, data, fr, e), Tags: tags, NonTrivial: true})
@@ -529,36 +530,43 @@ func genC19(r *Rng, tier string, emit func(Case)) {
 // PickStr returns one of the strings.
 func (r *Rng) PickStr(xs ...string) string { return xs[r.Intn(len(xs))] }
 
-// strictLine: -?[0-9]+ ' ' ([0-9A-F]{2})+ with an int32 time stamp (line without its '\n').
-func strictLine(l []byte) (c19rec, bool) {
+// strictLine: [+-]?[0-9]+ ' ' ([0-9A-Fa-f]{2})+ with an int32 time stamp (line without its '\n');
+// canon = the line is in the encoder's form (no '+', no lower-case hex digit).
+func strictLine(l []byte) (rec c19rec, ok bool, canon bool) {
 	sp := bytes.IndexByte(l, ' ')
 	if sp < 1 {
-		return c19rec{}, false
+		return
 	}
+	canon = true
 	t := l[:sp]
 	d := t
 	if d[0] == '-' {
 		d = d[1:]
+	} else if d[0] == '+' {
+		d = d[1:]
+		canon = false
 	}
-	if len(d) == 0 || len(d) > 11 {
-		return c19rec{}, false
+	if len(d) == 0 {
+		return
 	}
 	var v int64
 	for _, c := range d {
 		if c < '0' || c > '9' {
-			return c19rec{}, false
+			return
 		}
-		v = v*10 + int64(c-'0')
+		if v < 1<<40 {
+			v = v*10 + int64(c-'0')
+		}
 	}
 	if t[0] == '-' {
 		v = -v
 	}
 	if v < -2147483648 || v > 2147483647 {
-		return c19rec{}, false
+		return
 	}
 	h := l[sp+1:]
 	if len(h) == 0 || len(h)%2 != 0 {
-		return c19rec{}, false
+		return
 	}
 	nib := func(c byte) int {
 		switch {
@@ -566,6 +574,9 @@ func strictLine(l []byte) (c19rec, bool) {
 			return int(c - '0')
 		case c >= 'A' && c <= 'F':
 			return int(c-'A') + 10
+		case c >= 'a' && c <= 'f':
+			canon = false
+			return int(c-'a') + 10
 		}
 		return -1
 	}
@@ -573,44 +584,11 @@ func strictLine(l []byte) (c19rec, bool) {
 	for i := range out {
 		a, b := nib(h[2*i]), nib(h[2*i+1])
 		if a < 0 || b < 0 {
-			return c19rec{}, false
+			return
 		}
 		out[i] = byte(a<<4 | b)
 	}
-	return c19rec{int32(v), out}, true
-}
-
-// lenientLine is the documented outcome of findings F1/F2 for a line `<strict ts> ' ' rest`:
-// blanks inside rest are dropped, upper-case hex pairs are taken up to the first non-hex byte at a pair start.
-func lenientLine(l []byte) (c19rec, bool) {
-	sp := bytes.IndexByte(l, ' ')
-	if sp < 1 {
-		return c19rec{}, false
-	}
-	head, ok := strictLine(append(append([]byte{}, l[:sp+1]...), '0', '0'))
-	if !ok {
-		return c19rec{}, false
-	}
-	rest := bytes.ReplaceAll(l[sp+1:], []byte(" "), nil)
-	var out []byte
-	for i := 0; i < len(rest); i += 2 {
-		a, errA := strconv.ParseUint(string(rest[i:i+1]), 16, 8)
-		if errA != nil || (rest[i] >= 'a' && rest[i] <= 'f') {
-			break
-		}
-		if i+1 >= len(rest) {
-			return c19rec{}, false
-		}
-		b, errB := strconv.ParseUint(string(rest[i+1:i+2]), 16, 8)
-		if errB != nil || (rest[i+1] >= 'a' && rest[i+1] <= 'f') {
-			return c19rec{}, false
-		}
-		out = append(out, byte(a<<4|b))
-	}
-	if len(out) == 0 {
-		return c19rec{}, false
-	}
-	return c19rec{head.ts, out}, true
+	return c19rec{int32(v), out}, true, true && canon
 }
 
 func runC19(c Case, m *Model) (v Verdict) {
@@ -687,47 +665,50 @@ func runC19(c Case, m *Model) (v Verdict) {
 	if len(calls) == 0 || calls[len(calls)-1].ok {
 		v.Oracle = append(v.Oracle, "the end of the stream was not reported as an error")
 	}
-	if strings.HasSuffix(kind, "+src") || kind == "garbage" {
-		nOK := 0
-		for _, cl := range calls {
-			if cl.ok {
-				nOK++
-			}
-		}
-		v.Tags = append(v.Tags, fmt.Sprintf("%s-records-returned:%d", kind, min(nOK, 4)))
-		return
-	}
 	// line table
 	type lineInfo struct {
 		start, end int // end = index just after '\n'
 		rec        c19rec
-		strict     bool
+		strict     bool // a line of the reader's grammar: [+-]?[0-9]+ ' ' ([0-9A-Fa-f]{2})+, int32
+		upper      bool // ... and in the encoder's form (no '+', upper-case hex): must be returned
 		seen       bool
 	}
 	var lines []lineInfo
 	byStart := map[int]int{}
+	byEnd := map[int]int{}
 	for pos := 0; pos < total; {
 		e := bytes.IndexByte(data[pos:], '\n')
 		if e < 0 {
 			break
 		}
 		li := lineInfo{start: pos, end: pos + e + 1}
-		li.rec, li.strict = strictLine(data[pos : pos+e])
+		li.rec, li.strict, li.upper = strictLine(data[pos : pos+e])
 		byStart[pos] = len(lines)
+		byEnd[li.end] = len(lines)
 		lines = append(lines, li)
 		pos += e + 1
 	}
-	allowFinding := kind == "nonhex-even" || kind == "noterm-mid"
-	before := total
 	pos := 0
-	_ = before
+	nOK := 0
 	for i, cl := range calls {
 		start := pos
 		pos = total - cl.rem
 		if !cl.ok {
 			continue
 		}
+		nOK++
 		li, isStart := byStart[start]
+		if !isStart && strings.HasPrefix(kind, "garbage") {
+			// outside the four mutation kinds (DESIGN §8: more than one blank in a line): after an error reported at a
+			// blank the rest of that line is still in the stream and is read as a line of its own. Tolerated only
+			// for garbage streams, only if the call ends at the line end and the rest is itself a line of the grammar.
+			if k, ok := byEnd[pos]; ok && start > lines[k].start {
+				if rec, ok2, _ := strictLine(data[start : pos-1]); ok2 && rec.ts == cl.ts && bytes.Equal(rec.bs, cl.bs) {
+					v.Tags = append(v.Tags, "garbage:record-from-rest-of-line-after-error")
+					continue
+				}
+			}
+		}
 		if !isStart || lines[li].end != pos {
 			v.Oracle = append(v.Oracle, fmt.Sprintf("call %d returned a record (%d, %s) after consuming stream bytes [%d,%d), which is not exactly one line", i, cl.ts, short(hx(cl.bs)), start, pos))
 			continue
@@ -740,16 +721,11 @@ func runC19(c Case, m *Model) (v Verdict) {
 			L.seen = true
 			continue
 		}
-		if allowFinding {
-			if want, ok := lenientLine(data[L.start : L.end-1]); ok && want.ts == cl.ts && bytes.Equal(want.bs, cl.bs) {
-				v.Tags = append(v.Tags, "finding-hit:"+map[string]string{"nonhex-even": "F1", "noterm-mid": "F2"}[kind])
-				continue
-			}
-		}
 		v.Oracle = append(v.Oracle, fmt.Sprintf("call %d: malformed line %q yielded the record (%d, %s) instead of an error", i, short(string(data[L.start:L.end])), cl.ts, short(hx(cl.bs))))
 	}
+	v.Tags = append(v.Tags, fmt.Sprintf("%s-records-returned:%d", strings.TrimSuffix(kind, "+src"), min(nOK, 4)))
 	for _, L := range lines {
-		if L.strict && !L.seen {
+		if L.strict && L.upper && !L.seen {
 			v.Oracle = append(v.Oracle, fmt.Sprintf("record (%d, %s) written at stream offset %d was not returned", L.rec.ts, short(hx(L.rec.bs)), L.start))
 			break
 		}
